@@ -311,7 +311,9 @@ pub fn run(run: &mut Run) {
                         if expect_compile.is_some() && !run_ok {
                             // the runtime failure must be reported
                             let all = format!("{}{}", String::from_utf8_lossy(&o.stdout), String::from_utf8_lossy(&o.stderr));
-                            if !(all.contains("Assert failed!") || all.contains("unreachable code")) {
+                            // some report of the failure, whatever its wording: the assertion / crash marker of the runtime or an error line of the interpreter
+                            let low = all.to_lowercase();
+                            if !(low.contains("assert") || low.contains("unreachable") || low.contains("crash") || low.contains("error")) {
                                 fail(&mut st, "runtime-failure-not-reported", desc(Mode::Run, None), all, &a);
                             } else {
                                 st.outcome("run-mode:runtime-failure-reported");
